@@ -1,6 +1,161 @@
-//! C09 — not built yet.
-use crate::ev::Tier;
-pub fn main(_tier: Tier, _replay: Option<serde_json::Value>) -> i32 {
-    eprintln!("C09: check not built yet");
-    2
+//! C09 — range check admits exactly [0, 2^BITS).
+
+use std::sync::Arc;
+
+use serde_json::json;
+
+use crate::dispatch;
+use crate::e2::Gadget;
+use crate::ev::{Run, Tier};
+use crate::fe::*;
+use crate::gadget::*;
+use crate::m1;
+use crate::m5;
+use crate::prog::Prog;
+
+fn widths(tier: Tier) -> Vec<usize> {
+    match tier {
+        Tier::Quick => vec![0, 1, 2, 3, 6, 7, 8, 9, 10, 16, 17, 63, 64, 65, 127, 128, 251, 252, 253, 254, 255, 256],
+        Tier::Thorough => (0..=256).collect(),
+    }
+}
+
+fn values(w: usize, seed: u64) -> Vec<Fe> {
+    let rho = Rho::new(seed, 900 + w as u64).next_fe();
+    let mut v = vec![zero(), one(), neg1(), rho, m5::low_bits(&rho, w)];
+    if w <= 255 {
+        v.push(pow2(w) - one());
+        v.push(pow2(w));
+        v.push(pow2(w) + one());
+    }
+    if w + 1 <= 255 {
+        v.push(pow2(w + 1));
+    }
+    if w + 2 <= 255 {
+        v.push(pow2(w + 2) - one());
+    }
+    // values just above multiples of the quad padding
+    if w >= 2 && w + 1 <= 254 {
+        v.push(pow2(w) + pow2(w - 1));
+    }
+    dedup(v)
+}
+
+#[derive(Clone, Copy, PartialEq, Eq, Debug)]
+enum Entry {
+    /// component_range_bits::<BITS>
+    Bits,
+    /// runtime seam (pub(super) range_check)
+    Seam,
+    /// deprecated component_range::<BIT_PAIRS>
+    Pairs,
+}
+
+fn gadget(entry: Entry, w: usize, x: Fe) -> Gadget {
+    let name = format!("range/{:?}/w{}", entry, w);
+    Gadget::new(&name, vec![x], move |c, ins| {
+        match entry {
+            Entry::Bits => dispatch::range_bits(c, ins[0], w),
+            Entry::Seam => c.verif_range_check(ins[0], w),
+            Entry::Pairs => dispatch::range_pairs(c, ins[0], w / 2),
+        }
+        Ok(vec![])
+    })
+}
+
+pub fn cases(tier: Tier) -> Vec<GCase> {
+    let mut out = vec![];
+    let seed = seed();
+    for w in widths(tier) {
+        for x in values(w, seed) {
+            let expect = if m5::in_range(&x, w) { Expect::Sat(vec![]) } else { Expect::Unsat };
+            let mut entries = vec![Entry::Bits];
+            if w % 2 == 0 {
+                entries.push(Entry::Pairs);
+            }
+            if tier == Tier::Thorough || w % 8 == 1 {
+                entries.push(Entry::Seam);
+            }
+            for e in entries {
+                let wclass = if w >= 255 { "w>=255" } else if w % 2 == 0 { "even" } else { "odd" };
+                let mut c = GCase::new(gadget(e, w, x), expect.clone(), &format!("range/{:?}/{}", e, wclass));
+                // gadget-specific replacement values: quads and width-relative values
+                c.extra = Some(Arc::new(move |_k, v| {
+                    vec![("+2".into(), v + fe(2)), ("+3".into(), v + fe(3)), ("x2".into(), v + v), ("-4".into(), v - fe(4))]
+                }));
+                c.bound2 = tier == Tier::Thorough && w <= 12;
+                // prover confirmation on a subset in quick
+                c.confirm = tier == Tier::Thorough || e == Entry::Bits;
+                out.push(c);
+            }
+        }
+    }
+    out
+}
+
+/// Both entry points emit identical gates for equal widths.
+fn layout_equivalence(run: &mut Run, tier: Tier) {
+    let pairs: Vec<usize> = match tier {
+        Tier::Quick => vec![0, 1, 2, 3, 4, 5, 31, 32, 33, 64, 126, 127, 128, 129, 130, 200, 1000],
+        Tier::Thorough => (0..=130).chain([200usize, 1000]).collect(),
+    };
+    for p in pairs {
+        let bits = (2 * p).min(256);
+        for x in [zero(), fe(5), neg1()] {
+            let a = Prog::new(move |c| {
+                let w = c.append_witness(x);
+                dispatch::range_pairs(c, w, p);
+                Ok(())
+            });
+            let b = Prog::new(move |c| {
+                let w = c.append_witness(x);
+                dispatch::range_bits(c, w, bits);
+                Ok(())
+            });
+            run.transitions += 1;
+            run.evaluations += 1;
+            match (a.run(), b.run()) {
+                (Ok(sa), Ok(sb)) => {
+                    run.outcome("entrypoints:compared");
+                    if m1::layout_key(&sa) != m1::layout_key(&sb) || sa.gates != sb.gates {
+                        run.violation(
+                            "range/entrypoints-differ",
+                            &format!("component_range::<{}> and component_range_bits::<{}> emit different gates", p, bits),
+                            json!({"bit_pairs": p, "bits": bits, "value": hex(&x)}),
+                        );
+                    }
+                }
+                (ra, rb) => run.violation(
+                    "range/entrypoints-error",
+                    &format!("range entry points failed: {:?} / {:?}", ra.err(), rb.err()),
+                    json!({"bit_pairs": p, "bits": bits}),
+                ),
+            }
+        }
+    }
+}
+
+pub fn main(tier: Tier, replay: Option<serde_json::Value>) -> i32 {
+    let mut run = Run::new("C09", tier, "model_checking");
+    run.rule = "cases = (entry point, width, value) with boundary values per width; for each the honest assignment and every bound-1 deviation (bound 2 for widths <= 12 in thorough) of the gadget's own allocations, re-run through the real witness generator, is decided by M1; predicate: satisfiable iff canonical value < 2^w and no deviation makes an out-of-range value satisfiable; non-trivial = distinct (entry, width, value) whose exploration ran".into();
+    let cs = cases(tier);
+    let cache = ConfirmCache::new(crate::setup::pp(1 << 9));
+    if let Some(r) = replay {
+        return crate::gadget::replay(run, &cs, &cache, &r);
+    }
+    run.bound("widths", json!(widths(tier)));
+    run.bound("deviation_bound", json!(if tier == Tier::Thorough { "1 (2 for w<=12)" } else { "1" }));
+    let names: Vec<String> = cs.iter().map(|c| c.g.name.clone()).collect();
+    let reps = crate::par::par_map(&cs, |c| run_case(c, &cache));
+    absorb(&mut run, reps, &names);
+    layout_equivalence(&mut run, tier);
+    run.gate("some in-range honest cases", run.count("honest:sat") > 0);
+    run.gate("some out-of-range cases", run.count("honest:unsat") > 0);
+    run.gate("deviations explored", run.count("deviations") > 1000);
+    run.assumptions = vec![
+        "M1 row model (bound to the prover by C05) decides satisfiability".into(),
+        "field values: boundary alphabet per width, not the whole field".into(),
+        "adversary: <=1 (<=2 for small widths) deviating allocations, later allocations recomputed honestly".into(),
+    ];
+    run.finish()
 }
